@@ -138,6 +138,7 @@ type RunRec struct {
 	PortRetry int      `json:"port_retry"`
 	StartMs   int64    `json:"start_ms"`
 	Log       string   `json:"log,omitempty"` // tail of the child's log when the start failed
+	PowerLoss string   `json:"power_loss,omitempty"`
 }
 
 // ---------- key universe and op generator ----------
@@ -627,6 +628,7 @@ func runDir(self string, job dirJob, pa *portAlloc, emit func(RunRec)) {
 	g := &gen{r: r, tag: fmt.Sprintf("d%d", job.id)}
 	run := 0
 	envFailures := 0
+	slowRetries := 0
 	newRec := func(spec string) *RunRec {
 		return &RunRec{Dir: job.id, Run: run, Engine: job.engine, OptFsync: job.optFsync, Spec: spec, Death: "none"}
 	}
@@ -668,10 +670,22 @@ func runDir(self string, job dirJob, pa *portAlloc, emit func(RunRec)) {
 			continue
 		}
 		if rec.Start != "ready" {
-			// the node did not come back on its own data: the oracle reports it
+			// the node did not come back. A start that was merely too slow on a loaded machine (no leader within
+			// the budget, no READY in time) is killed like any other life and tried once more: a node that cannot
+			// recover its data fails again, and that is reported by the oracle
+			if slowRetries < 1 && (rec.Start == "FAIL noleader" || rec.Start == "timeout") {
+				slowRetries++
+				rec.Start = "slow-start"
+				rec.Death = "external"
+				finishRun(dir, lv, rec, emit)
+				run++
+				cyc--
+				continue
+			}
 			finishRun(dir, lv, rec, emit)
 			return
 		}
+		slowRetries = 0
 		c, err := dial(cfg.Port, 5*time.Second)
 		if err != nil {
 			rec.Start = "noconnect " + err.Error()
@@ -701,7 +715,7 @@ func runDir(self string, job dirJob, pa *portAlloc, emit func(RunRec)) {
 					alive = false
 				case <-time.After(10 * time.Second):
 				}
-			case "X":
+			case "X", "W":
 				extAfter, _ = strconv.Atoi(f[1])
 				q, _ := strconv.Atoi(f[2])
 				extUs = q * 250
@@ -755,9 +769,53 @@ func runDir(self string, job dirJob, pa *portAlloc, emit func(RunRec)) {
 				rec.Death = "env-exit"
 			}
 		}
+		if strings.HasPrefix(spec, "W:") && rec.Death == "external" {
+			// power loss instead of process death: what the WAL's tail segment received after its last fdatasync is gone
+			rec.PowerLoss = powerLoss(dir)
+		}
 		finishRun(dir, lv, rec, emit)
 		run++
 	}
+}
+
+// powerLoss zeroes the tail WAL segment from the offset of the last fdatasync on (the child records name and
+// offset of every sync through wal.VerifSyncHook). Returns what it did.
+func powerLoss(dir string) string {
+	b, err := ioutil.ReadFile(filepath.Join(dir, "walsync"))
+	if err != nil {
+		return "no-sync-record"
+	}
+	f := strings.Fields(string(b))
+	if len(f) != 2 {
+		return "bad-sync-record"
+	}
+	off, _ := strconv.ParseInt(f[1], 10, 64)
+	walDir := filepath.Join(dir, nsName+"-0", "wal-1")
+	ents, _ := ioutil.ReadDir(walDir)
+	tail := ""
+	for _, e := range ents {
+		if strings.HasSuffix(e.Name(), ".wal") && e.Name() > tail {
+			tail = e.Name()
+		}
+	}
+	if tail == "" || tail != filepath.Base(f[0]) {
+		return "tail-changed-since-last-sync"
+	}
+	fp := filepath.Join(walDir, tail)
+	st, err := os.Stat(fp)
+	if err != nil || st.Size() <= off {
+		return "nothing-unsynced"
+	}
+	fh, err := os.OpenFile(fp, os.O_WRONLY, 0600)
+	if err != nil {
+		return "open-failed"
+	}
+	defer fh.Close()
+	zeros := make([]byte, st.Size()-off)
+	if _, err := fh.WriteAt(zeros, off); err != nil {
+		return "write-failed"
+	}
+	return fmt.Sprintf("zeroed %d bytes from %d", len(zeros), off)
 }
 
 // ---------- parent main ----------
@@ -843,6 +901,17 @@ func writeCases(out string, recs []RunRec, keep int) {
 	for _, d := range ids {
 		runs := byDir[d]
 		sort.Slice(runs, func(i, j int) bool { return runs[i].Run < runs[j].Run })
+		// directories with a simulated power loss are outside the path model's crash model (process death):
+		// they are judged by the oracle only
+		pl := false
+		for _, r := range runs {
+			if strings.HasPrefix(r.Spec, "W:") {
+				pl = true
+			}
+		}
+		if pl {
+			continue
+		}
 		of := 0
 		if runs[0].OptFsync {
 			of = 1
